@@ -51,6 +51,10 @@ func c17Jobs(tier string) []Job {
 			}
 		}
 	}
+	for _, n := range []int{99, 100, 101, 130, 257} {
+		n := n
+		jobs = append(jobs, Job{Name: fmt.Sprintf("genesis-large-lists-%d", n), Run: func(r *Run) { c17Large(r, n) }})
+	}
 	depth := 3
 	if tier == "thorough" {
 		depth = 5
@@ -96,7 +100,8 @@ func c17Entries(list string) []c17Entry {
 				g.TokenPairList = append(g.TokenPairList, cctptypes.TokenPair{RemoteDomain: d, RemoteToken: t, LocalToken: l})
 			}}
 		}
-		return []c17Entry{mk(0, tA, "uusdc"), mk(0, tA, "uatom"), mk(0, tC, "uusdc"), mk(1, tA, "uusdc")}
+		t20 := bytes.Repeat([]byte{0xA5}, 20) // a 20-byte remote token and the same bytes left-padded to 32: two different keys
+		return []c17Entry{mk(0, tA, "uusdc"), mk(0, tA, "uatom"), mk(0, tC, "uusdc"), mk(1, tA, "uusdc"), mk(0, t20, "uusdc"), mk(0, pad32(t20), "uatom")}
 	case "used":
 		mk := func(d uint32, n uint64) c17Entry {
 			return c17Entry{nonceKey(d, n), func(g *cctptypes.GenesisState) {
@@ -518,4 +523,59 @@ func c17Replay(rp *Replay) int {
 		fmt.Println(" export :", c17Canon(w.ExportCCTP()))
 	}()
 	return 0
+}
+
+// c17Large: lists longer than any page size or default limit (100): every entry must survive
+// init + export, each list alone and all five together.
+func c17Large(r *Run, n int) {
+	lists := []string{"attesters", "limits", "pairs", "used", "messengers"}
+	for _, l := range append(append([]string{}, lists...), "all") {
+		g := LargeGenesis(n, l)
+		r.States++
+		c17CheckGenesis(r, g, false, fmt.Sprintf("large lists: %d entries in %s", n, l))
+	}
+}
+
+// LargeGenesis: BaseGenesis with n entries in the named keyed list ("all": in each of the five).
+func LargeGenesis(n int, which string) cctptypes.GenesisState {
+	fill := map[string]func(g *cctptypes.GenesisState){
+		"attesters": func(g *cctptypes.GenesisState) {
+			g.AttesterList = nil
+			for i := 0; i < n; i++ {
+				g.AttesterList = append(g.AttesterList, cctptypes.Attester{Attester: fmt.Sprintf("04%062x", i+1)})
+			}
+		},
+		"limits": func(g *cctptypes.GenesisState) {
+			g.PerMessageBurnLimitList = nil
+			for i := 0; i < n; i++ {
+				g.PerMessageBurnLimitList = append(g.PerMessageBurnLimitList, cctptypes.PerMessageBurnLimit{Denom: fmt.Sprintf("utok%d", i), Amount: math.NewInt(int64(i))})
+			}
+		},
+		"pairs": func(g *cctptypes.GenesisState) {
+			g.TokenPairList = nil
+			for i := 0; i < n; i++ {
+				g.TokenPairList = append(g.TokenPairList, cctptypes.TokenPair{RemoteDomain: uint32(i % 3), RemoteToken: distinct32(byte(i)), LocalToken: "uusdc"})
+				g.TokenPairList[i].RemoteToken[1] = byte(i >> 8)
+			}
+		},
+		"used": func(g *cctptypes.GenesisState) {
+			g.UsedNoncesList = nil
+			for i := 0; i < n; i++ {
+				g.UsedNoncesList = append(g.UsedNoncesList, cctptypes.Nonce{SourceDomain: uint32(i % 2), Nonce: uint64(i / 2)})
+			}
+		},
+		"messengers": func(g *cctptypes.GenesisState) {
+			g.TokenMessengerList = nil
+			for i := 0; i < n; i++ {
+				g.TokenMessengerList = append(g.TokenMessengerList, cctptypes.RemoteTokenMessenger{DomainId: uint32(i), Address: distinct32(byte(i))})
+			}
+		},
+	}
+	g := BaseGenesis()
+	for _, k := range []string{"attesters", "limits", "pairs", "used", "messengers"} {
+		if which == k || which == "all" {
+			fill[k](&g)
+		}
+	}
+	return g
 }
